@@ -211,6 +211,8 @@ THREADSETS = {
     'mixed3': ((('set', 2, 2.25),), (('get_state', 1),), (('read', 0),)),
     'read1+state2': ((('read', 1),), (('get_state', 2),)),
     'set1+read2': ((('set', 1, 44),), (('read', 2),)),
+    'state_twice': ((('get_state', 2), ('get_state', 2)), (('get_state', 1),)),
+    'default_twice': ((('get_default', 0), ('get_default', 0)),),
     'store_clear_same': ((('store', 1),), (('clear', 1),), (('get_state', 1),)),
 }
 
@@ -294,7 +296,11 @@ def exec_c04(cfg, devs):
                 kind, pi = req[0], req[1]
                 key = (ti, ri)
                 res = info['results'].setdefault(key, [])
-                cbk = lambda name, val, res=res: (res.append((name, val)), ex.log('result', key, name, repr(val)))  # noqa
+                cbk = lambda name, val, res=res, key=key: (res.append((name, val)), ex.log('result', key, name, repr(val)))  # noqa
+                if ri > 0 and cfg.get('sequential'):
+                    # the application asks again only after it has the answer to its previous request
+                    prev = info['results'][(ti, ri - 1)]
+                    ex.wait_for(lambda: len(prev) > 0, 3.0, 'user.wait_answer')
                 ex.log('issue', key, kind, pi)
                 try:
                     if kind == 'set':
@@ -319,6 +325,15 @@ def exec_c04(cfg, devs):
             dev.params[upi].value = newv
             ex.log('unsolicited', upi, newv)
             ex.env.links[-1].deliver_later(*dev.value_updated_packet(upi), 0.1)
+        if cfg.get('enoent'):
+            # the firmware may refuse a state / default query with ENOENT: an environment answer (one deviation)
+            def enoent_hook(port, chan, data):
+                if port == 2 and chan == 3 and data[:1] in (b'\x04', b'\x06') and not ex.frozen:
+                    if ex._choose(2, 'param.enoent') == 1:
+                        ex.log('enoent', bytes(data[:3]))
+                        return [(simcf.SimCF.hdr(2, 3), bytes(data[:3]) + bytes([2]))]
+                return None
+            dev.hooks.append(enoent_hook)
         for ti, reqs in enumerate(threads):
             s.spawn(None, (lambda ti=ti, reqs=reqs: user(ti, reqs)), name='user%d' % ti)
         if cfg.get('unsolicited'):
@@ -376,19 +391,28 @@ def _judge(p, cfg, devs, ex, info, dev, threads):
             viol('request_raised', 'request %r raised %s' % (e[2], e[3]))
     # ---- wire order = queue order; one at a time -----------------------------------------------------------
     puts = [(e[2], e[3]) for e in ev if e[1] == 'put']
-    first_tx = []
-    seen = set()
-    for e in ev:
-        if e[1] == 'tx':
-            k = (e[2], e[3])
-            if not first_tx or first_tx[-1] != k:
-                # a retransmission repeats the previous request; anything else is a new request
-                first_tx.append(k)
-    # collapse retransmissions interleaved (same request again later is a retransmission only if directly repeated)
+    # A transmission repeats the previous request (retransmission) unless its bytes differ - or the application has
+    # queued the same bytes once more and the previous one has been answered (two identical requests in a row).
+    new_tx = set()           # positions in ev of the first transmission of each request
     wire = []
-    for k in first_tx:
-        if not wire or wire[-1] != k:
-            wire.append(k)
+    nput, nstarted = {}, {}
+    last_k, last_answered = None, False
+    for i, e in enumerate(ev):
+        if e[1] == 'put':
+            kk = (e[2] & 0xf3, e[3])
+            nput[kk] = nput.get(kk, 0) + 1
+        elif e[1] == 'tx':
+            k = (e[2] & 0xf3, e[3])
+            again = k == last_k and last_answered and (info.get('no_queue') or nput.get(k, 0) > nstarted.get(k, 0))
+            if k != last_k or again:
+                new_tx.add(i)
+                wire.append((e[2], e[3]))
+                nstarted[k] = nstarted.get(k, 0) + 1
+                last_k, last_answered = k, False
+        elif e[1] == 'processed' and last_k is not None and (e[2] & 0xf3) == last_k[0]:
+            n = 3 if (last_k[0] & 3) == 3 else 2
+            if bytes(e[3][:n]) == bytes(last_k[1][:n]):
+                last_answered = True
     if not info.get('no_queue') and [(h & 0xf3, d) for h, d in wire] != [(h & 0xf3, d) for h, d in puts]:
         viol('wire_order', 'requests were queued in order %r but went on the wire as %r' % (
             [d.hex() for _, d in puts], [d.hex() for _, d in wire]))
@@ -399,13 +423,13 @@ def _judge(p, cfg, devs, ex, info, dev, threads):
 
     def _pattern(k):
         return bytes(k[1][:3]) if (k[0] & 3) == 3 else bytes(k[1][:2])
-    for e in ev:
+    for i_ev, e in enumerate(ev):
         if e[1] == 'tx':
             k = (e[2] & 0xf3, e[3])
-            if prev_tx == k:
+            if prev_tx == k and i_ev not in new_tx:
                 retransmitted.append(_pattern(k))
             prev_tx = k
-            if pending is not None and k != pending[0]:
+            if pending is not None and (k != pending[0] or i_ev in new_tx):
                 if not pending[1]:
                     # the duplicate answer to an earlier, retransmitted request about the same parameter is taken for the
                     # answer to this one (known finding: the protocol has no request identity)
@@ -449,11 +473,18 @@ def _judge(p, cfg, devs, ex, info, dev, threads):
             ref.params[e[2]].value = e[3]
         if e[1] == 'tx':
             k = (e[2] & 3, e[3])
-            if k == last:
+            if i not in new_tx:
                 continue
             last = k
             cands = remaining.get(k, [])
             if not cands:
+                continue
+            if i + 1 < len(ev) and ev[i + 1][1] == 'enoent':
+                # the device refused this request (ENOENT): the callback gets None, nothing changes on the device
+                cands.sort(key=lambda tr: next(j for j, x in enumerate(ev) if x[1] == 'issue' and x[2] == tr))
+                tr = cands.pop(0)
+                answers[tr] = None
+                applied.append(tr)
                 continue
             # requests with identical bytes from different threads: served in issue order
             cands.sort(key=lambda tr: next(j for j, x in enumerate(ev) if x[1] == 'issue' and x[2] == tr))
@@ -532,7 +563,7 @@ def _same_answer(got, exp):
 def configs(quick):
     out = []
     for name in THREADSETS:
-        out.append({'name': name, 'threads': name})
+        out.append({'name': name, 'threads': name, 'sequential': name.endswith('_twice')})
     out.append({'name': 'getstate2+unsolicited', 'threads': 'getstate2', 'unsolicited': 0.05})
     out.append({'name': 'set+read+unsolicited', 'threads': 'set+read', 'unsolicited': 0.05})
     out.append({'name': 'mixed3+unsolicited', 'threads': 'mixed3', 'unsolicited': 0.05})
@@ -544,6 +575,9 @@ def configs(quick):
     out.append({'name': 'read1+state2+inflight0', 'threads': 'read1+state2', 'unsol_inflight': True, 'unsol_param': 0})
     out.append({'name': 'set1+read2+inflight0', 'threads': 'set1+read2', 'unsol_inflight': True, 'unsol_param': 0})
     out.append({'name': 'getstate2+inflight2', 'threads': 'getstate2', 'unsol_inflight': True, 'unsol_param': 2})
+    # the device refuses a state / default query (ENOENT) - and the application asks again
+    out.append({'name': 'state_twice+enoent', 'threads': 'state_twice', 'enoent': True, 'sequential': True})
+    out.append({'name': 'default_twice+enoent', 'threads': 'default_twice', 'enoent': True, 'sequential': True})
     for pol in ('handoff', 'eager'):
         for th in ('getstate2', 'set+read', 'store+state'):
             out.append({'name': '%s:%s' % (th, pol), 'threads': th, 'policy': pol})
